@@ -8,7 +8,7 @@ from checks import c13 as C13
 TRUST = ("Lean 4.33 kernel; axioms at most propext/Classical.choice/Quot.sound (audited per run); "
          "hand-written selection model tied to the C++ by the exact correspondence harness (differential, generator-bounded); ")
 MANIFEST = dict(
-  text=("Theorems (Props/C14.lean, 22) about executable Lean models tied to the real classes. Selection: for every rank vector (duplicates, single front, "
+  text=("Theorems (Props/C14.lean, 28) about executable Lean models tied to the real classes. Selection: for every rank vector (duplicates, single front, "
         "mu = n), every 1 <= mu <= n, IndicatorBasedSelection marks exactly mu individuals, never keeps a worse non-domination rank while discarding a "
         "better one, keeps whole better fronts; the hypothesis 'the indicator returns K distinct positions of the front' is now DISCHARGED for the modelled "
         "indicators: the leastContributors loop shared by HypervolumeIndicator / CrowdingDistance / AdditiveEpsilonIndicator returns K distinct positions for "
@@ -25,19 +25,26 @@ MANIFEST = dict(
         "marked individuals and no marked individual has a worse rank than a discarded one. Steady-state hypervolume monotonicity is composed END TO END for the "
         "modelled SMS-EMOA step (append offspring, IndicatorBasedSelection, replace the first unselected parent), every number of objectives, every population and "
         "offspring strictly below the fixed reference point, and every leastContributor routine that returns a position of minimal contribSpec on fronts "
-        "(steady_update_hv_monotone_partial; instance: the specification-level indicator specLeast, steady_update_hv_monotone_spec_indicator). "
+        "(steady_update_hv_monotone_partial, any number of objectives); for 2 objectives the hypothesis on the indicator is DISCHARGED for the model of the real "
+        "HypervolumeIndicator (hvLeastRef_least_contributor_2d, via C13's contribs2dGo_eq_spec): steady_update_hv_monotone (SMS-EMOA), ssmocma_update_hv_monotone "
+        "(steady-state MO-CMA-ES, through the proved permutation sortRankOneToFront), steady_run_hv_monotone (whole runs). NSGA-III: the niche-selection loop "
+        "(nsga3Least) returns K distinct positions of the front for EVERY outcome of the floating-point association step, hence exactly mu marked and the update keeps "
+        "exactly the marked individuals (nsga3_update_elitist; generational_update_elitist_any_indicator). "
         "Tie: exact correspondence on integer populations for selection with exact flags (which individual the indicator discards), evaluator, tournament "
         "(rng draws observed), and state-by-state for multi-step histories of updatePopulation() of the real SMSEMOA, SteadyStateMOCMA, MOCMA, "
-        "IndicatorBasedRealCodedNSGAII<HV|Eps|Crowding>, MOEAD, RVEA objects (offspring from the real generateOffspring(), points/fitness overwritten by "
-        "integers); independent oracles for size, solution() mirror, survivors from the pool, rank elitism, hypervolume monotonicity; plus oracle-checked "
+        "IndicatorBasedRealCodedNSGAII<HV|Eps|Crowding>, RealCodedNSGAIII, MOEAD, RVEA objects (offspring from the real generateOffspring(), points/fitness overwritten by "
+        "integers); NSGA-III's association step is observed through a replica of the C++ float code in the harness (a wrong replica shows as mismatch of the real "
+        "indicator's choice); independent brute-force oracle: every member the hypervolume indicator discards is a least contributor (ties allowed, 2-3 objectives, "
+        "with/without reference); independent oracles for size, solution() mirror, survivors from the pool, rank elitism, hypervolume monotonicity; plus oracle-checked "
         "runs of the seven real optimizers on ZDT/DTLZ (init with own / fewer / exactly mu / more start points)."),
-  note=TRUST + "NOT proved: (1) that the modelled C++ routines hvLeast2d / hvLeast3d (literal sentinel formula of HypervolumeContribution2D, hvWfg differences "
-       "in 3-D) return a position of minimal contribSpec on a front ('2-D contribution formula = contribSpec'), i.e. the hypothesis LeastContribOn of "
-       "steady_update_hv_monotone_partial for the real indicator: tied by exact correspondence of the discarded individual and the exact hvdecrease oracle on integer "
-       "histories only; also partial in the sense that populations with a member on/beyond the reference point are excluded (the real 3-D routine reads out of "
-       "bounds there: finding F-C14-2, patch validated); (2) steady-state MO-CMA-ES adds sortRankOneToFront (a proved permutation) — the hypervolume theorem is stated for the "
-       "SMS-EMOA update; (3) NSGA3Indicator: the niche-counting loop has an executable model (nsga3Least) but neither theorem nor exact tie (its association step is "
-       "floating point behind a linear solve; compared through the count only, the NSGA-III update itself is the NSGA-II template tied with three other indicators); "
+  note=TRUST + "NOT proved / assumed: (1) hypervolume monotonicity for 3 objectives stays _partial (hypothesis: the 3-D routine returns a least contributor; tied by exact "
+       "correspondence, the brute-force least-contributor oracle and the exact hvdecrease oracle); all hypervolume theorems require every fitness vector strictly below the "
+       "reference point (members on/beyond it are tied by correspondence and oracle only); (2) NSGA-III: that the model's 'first direction of minimal niche count among those with a "
+       "remaining point' equals the C++ retire-and-retry loop is tied by exact correspondence, not proved; niche-count consistency is not stated as a theorem; "
+       "(3) libstdc++ tie behaviour is part of the model WHERE THE C++ RESULT DEPENDS ON IT: crowding distance (std::sort on keys: which of several equal keys gets the boundary "
+       "distance), hypervolume indicator (lexicographic std::sort permutes only identical points; size-1 heap keeps the last of several equal contributions; 3-D sorts contributions), "
+       "std::partition (order of the survivors); fronts of these indicators are generated with <= 16 elements (insertion-sort regime). The epsilon indicator and the NSGA-III niche "
+       "selection do not pass through std::sort and are generated with fronts up to 28; no tie-order independence theorem was proved in this round; "
        "(4) RVEA/MOEA-D: the floating-point parts (cosines, angle-penalised distances, lattice neighbourhoods by std::sort) and the rng draws of the "
        "tournament enter the model as observed inputs (aux pass of the harness, re-verified in the comparison pass); reference-vector adaptation not modelled; "
        "(5) variation operators (SBX, polynomial mutation, CMA sampling/step-size adaptation) are arbitrary parameters, their clamp is an assumption read off the "
@@ -70,7 +77,7 @@ def build(ctx):
     return a, b, c
 
 
-UPD_ALGOS = ["smsemoa", "ssmocma", "nsga2", "nsga2eps", "nsga2hv", "mocma", "moead", "rvea"]
+UPD_ALGOS = ["smsemoa", "ssmocma", "nsga2", "nsga2eps", "nsga2hv", "nsga3", "mocma", "moead", "rvea"]
 LATTICE3 = {3: 1, 6: 2, 10: 3, 15: 4}      # mu -> ticks for 3 objectives
 
 
@@ -104,7 +111,7 @@ def gen_upd(r, ctx, maxsteps):
     hvbased = algo in ("smsemoa", "ssmocma", "nsga2hv", "mocma")
     ref = 1 if (hvbased and (m == 3 or r.below(2))) else 0
     if algo == "moead": mu = r.choice([3, 5, 9]) if m == 2 else r.choice([3, 6])
-    elif algo == "rvea": mu = r.range(3, 7) if m == 2 else r.choice([3, 6])
+    elif algo in ("rvea", "nsga3"): mu = r.range(3, 7) if m == 2 else r.choice([3, 6])
     elif algo in ("mocma", "ssmocma"): mu = r.range(1, 7)
     else: mu = r.range(3, 7)
     T = r.range(1, min(mu, 4)) if algo == "moead" else 0
@@ -158,7 +165,7 @@ def observe_aux(ctx, exe, lines):
     res = []
     for l, a in zip(lines, out):
         a = a.strip()
-        need = l.split()[0] == "tour" or l.split()[1] in ("moead", "rvea")
+        need = l.split()[0] == "tour" or l.split()[1] in ("moead", "rvea", "nsga3")
         res.append(l + " aux " + a if (a or need) else l)
     return res
 
@@ -182,7 +189,9 @@ def gen_sel(r, ctx):
     ind = r.choice(["hv", "hv", "hvnoref", "crowd", "eps", "nsga3", "hvr", "hvr"])
     # (the harness starts from a fresh container, stale alternating marks or all-true marks depending on (n + mu) % 3)
     m = r.choice([2, 2, 3])
-    n = r.range(1, 14)
+    # indicators whose C++ result does not pass through std::sort (epsilon indicator, NSGA-III niche selection) are also run on
+    # fronts larger than 16; for the others the model contains libstdc++'s tie behaviour of std::sort (stable below 17 elements)
+    n = r.range(1, 14) if ind not in ("eps", "nsga3") or r.below(2) else r.range(15, 28)
     w = r.choice([2, 3, 4, 6])
     P = C13.gen_points(r, m, n, w, r.choice([0, 1, 5]), r.choice(["mix", "dup", "front", "front"]))
     mu = r.choice([1, n, r.range(1, n)])
@@ -307,6 +316,8 @@ def run(ctx):
     ctx.cov["distinct_nontrivial"] = len(set(sel_lines)) + len(set(opt_lines)) + len(set(gen_lines))
     ctx.sample({"upd_op": gen_lines[-1][:300]})
     ctx.sample({"sel_op": sel_lines[len(sel_lines) // 2][:160]}); ctx.sample({"opt_op": opt_lines[-1]})
+    sel_lines = observe_aux(ctx, sel_exe, [l.split(" aux")[0] for l in sel_lines])      # NSGA-III association step observed
+    ctx.count("sel_nsga3_association_outside_model", sum(1 for l in sel_lines if l.endswith(" aux nan") or (l.split()[1] == "nsga3" and l.endswith(" aux "))))
     C13.correspond_lines(ctx, "K-C14[selection]", sel_lines, [sel_exe], [drv], classify=classify, shrink=shrink)
     C13.correspond_lines(ctx, "K-C14[generation]", gen_lines, [gen_exe], [drv], classify=classify, shrink=shrink)
     C13.correspond_lines(ctx, "K-C14[optimizers]", opt_lines, [opt_exe], [drv], classify=classify, shrink=shrink, timeout=1500)
